@@ -98,10 +98,10 @@ CLAIMED = {
             "negative = indefinite); self writes ignored; poll failure, POLLHUP, failed/short read, bad version, overflow stop the daemon without dispatch; handler failures reported after the close. "
             "Tie: the real main() with poll/read/close and handler entry points scripted, all scripts of up to 2 (3) slots over 15 slot kinds.",
             NOTE, "equational characterisation of the loop; exhaustive differential correspondence + slot-by-slot monitor"),
-    "C18": ("Theorems: a malformed command line exits before anything is mounted or watched; defaults (grammar equivalence, common parent = deepest common directory, mount iff not mounted: ParamsProofs). "
+    "C18": ("Theorems: a malformed command line exits before anything is mounted or watched; defaults (grammar equivalence, common parent = deepest common directory, mount iff not mounted: ParamsProofs; the text of /proc/self/mounts as the kernel writes it read back by the model of load_mountinfo gives exactly the mount points, a root is mounted iff it is not in the kernel's table: MountProofs; the reader without decoding is refuted = fix 9d086a9). "
             "Tie: every argv up to length 4 (5) over 11 tokens through the real parser against a reference parser of the documented grammar; all pairs of 11 paths through "
-            "get_common_parent_path_length; the real main() on every sequence of 1-3 roots with random mount tables.",
-            NOTE + "Not modelled: octal escapes in /proc/self/mounts; realpath is scripted.", "grammar equivalence + path lemmas; exhaustive differential correspondence + reference parser"),
+            "get_common_parent_path_length; the real main() on every sequence of 1-3 roots with random mount tables written the kernel's way (escaped space, tab, newline, backslash) and 15 malformed tables.",
+            NOTE + "realpath is scripted; the kernel's escaping of /proc/self/mounts is modelled (MountParse.mangle) and was confirmed on the running kernel.", "grammar equivalence + path lemmas; exhaustive differential correspondence + reference parser"),
     "C13": ("Partial. Theorems carry the index arithmetic of the parsers: the project-name scan stays inside the path under the guard handle_timeout checks, the relative path offset never exceeds the length, "
             "decoding a queue link yields a suffix of it, the ELF interpreter string is a NUL-free proper prefix of a fully read buffer, the command-line parser is total. Memory safety of the C itself is "
             "witnessed on every run by rebuilding the harness with AddressSanitizer + UBSan and running hostile ELF images, hand-written queue directories, paths up to PATH_MAX, every short argv, pairs of watch roots (equal, nested, diverging), main() with nested roots, and tables of process ids of any initial size with pids up to 4194303; "
